@@ -708,3 +708,39 @@ def finalize_table(F, M):
                 rows.append(({"small": small, "half": half, "quarter": quarter, "cons": cons, "pure": pure},
                              {"validity": vname, "Z": Z, "H": H, "gate": G}, hit[0]["res"]))
     return rows, None
+
+
+def wrapper_forwards(F, body, inner_path, nargs):
+    """None if the outer wrapper `body` hands its first `nargs` parameters unchanged to the inner call `inner_path` and returns
+    Ok(outer hash built around exactly the inner result) / the inner error unchanged -- decided by abstract evaluation with the inner
+    call's outcome opaque (any spelling: .map(Self::new), `?` + Ok(Self::new(..)), match); else a description."""
+    from .. import evalx
+    S = sym.Sym(body)
+    try:
+        paths = S.paths()
+    except sym.PathLimit:
+        return "too many paths"
+    evalx.set_target(F)
+    for outcome in (("Ok", ("obj", "inner hash")), ("Err", ("obj", "inner error"))):
+        seen = []
+
+        def inner(*a):
+            seen.append(a)
+            return outcome
+        asg = {"symbolic": True, "params": {i + 1: ("obj", "arg%d" % (i + 1)) for i in range(max(nargs, 3))}, "calls": {inner_path: inner}}
+        try:
+            got = evalx.run(S, F, paths, asg)
+        except evalx.Panics as ex:
+            return "panics (%s)" % ex
+        except evalx.Unknown as ex:
+            return "cannot evaluate: %s" % ex
+        if not seen or any(a[:nargs] != tuple(("obj", "arg%d" % (i + 1)) for i in range(nargs)) for a in seen):
+            return "the inner call receives %s; reference the wrapper's own parameters" % (seen[:1],)
+        if outcome[0] == "Err":
+            if got != outcome:
+                return "inner error is returned as %r" % (got,)
+        else:
+            okv = got[1] if isinstance(got, tuple) and got[:1] == ("Ok",) else None
+            if not (isinstance(okv, tuple) and okv[:1] == ("adt",) and okv[1].startswith("hash::FuzzyHash") and okv[2:] == (outcome[1],)):
+                return "inner Ok(h) is returned as %r; reference Ok(outer hash holding h)" % (got,)
+    return None
